@@ -51,7 +51,48 @@ def features(env, root, lay=None):
                 # for any T holding a std::vector, instead of T's wire alignment
                 if lay is None or lay[env.base(m["t"])["i"] - 1]["align"] < 8:
                     feats.add("cpp-optional-of-struct-with-limited-array")
+    if lay is not None and _inner_part_overaligned(env, seen, lay):
+        feats.add("raw-swap-inner-part-overaligned")
     return sorted(feats)
+
+
+def _type_align(env, t, lay):
+    b = env.base(t)
+    if b["k"] in ("int", "flt", "byte"):
+        return b["w"]
+    return lay[b["i"] - 1]["align"]
+
+
+def _type_kind(env, t, lay):
+    b = env.base(t)
+    return lay[b["i"] - 1]["kind"] if b["k"] == "ref" else 0
+
+
+def _inner_part_overaligned(env, reach, lay):
+    """raw C++ structs are cut into parts after every dynamic field; the swap
+    helper of a part other than the first returns its end cast to ITS OWN type
+    (so rounded up to its own alignment) and only then is it cast to the next
+    part: wrong whenever the next part is less aligned.  True when a reachable
+    struct has such a pair of consecutive parts."""
+    for i in reach:
+        d = env.d(i)
+        if d["k"] != "struct":
+            continue
+        parts, cur = [], []
+        for m in d["ms"]:
+            a = _type_align(env, m["t"], lay)
+            if m["f"] in ("opt", "dyn", "lim"):
+                a = max(4, a)
+            cur.append(a)
+            if m["f"] in ("dyn", "ext", "greedy") or (m["f"] == "plain" and _type_kind(env, m["t"], lay) != 0):
+                parts.append(max(cur))
+                cur = []
+        if cur:
+            parts.append(max(cur))
+        for b in range(1, len(parts) - 1):
+            if parts[b] > parts[b + 1]:
+                return True
+    return False
 
 
 # (property, check kind) -> features that explain a failure of that kind
@@ -69,6 +110,10 @@ def match(pid, fail):
     if pid == "C09" and fail.get("check") == "swap" and fail.get("returned_rounded_to_struct_alignment") \
             and "swap returned offset" in what:
         return "raw-swap-greedy-return-rounded"
+    if pid == "C09" and fail.get("check") == "swap" and "raw-swap-inner-part-overaligned" in (fail.get("features") or ()) \
+            and fail.get("explained_by_repaired_build") is True:
+        # the case passes on a build in which exactly that defect is repaired (vf/rawwire.py)
+        return "raw-swap-inner-part-overaligned"
     if pid == "C14" and fail.get("check") == "expr" and str(fail.get("context", "")).startswith("isar -> c++"):
         # the same raw text read by the C++ compiler: explained only if C/C++
         # operator precedence gives exactly what was observed (or no constant
